@@ -9,6 +9,7 @@
 import Proofs.C01
 import Proofs.Lemmas.InprocAll
 import Proofs.Lemmas.InprocUnaryAll
+import Proofs.Lemmas.HttpServerStream
 
 namespace InprocStream
 
@@ -192,3 +193,38 @@ theorem C02_http_truncated_is_error (s : St) (hpc : s.pc = 1) (hb : s.body = [])
   cases s.rErr <;> cases s.ctx <;> simp
 
 end HttpClientStream
+
+namespace HttpServerStream
+open InprocStream (HErr Reason Res codeOf)
+
+/-- **The trailer's code is the handler's status** (HTTP server streams): over an intact connection
+    the reply ends with a trailer frame whose code is `trailerCode e` — the status error's own code,
+    Canceled / DeadlineExceeded for a context error, Unknown for any other error. -/
+theorem C02_http_server_trailer_code (cs : Bool) (req : List ReqItem) (acts : List Act) (s1 : St) (rs : List Res)
+    (e : Option HErr) (s : St) (r : Res) (h1 : run (init cs req) acts = some (s1, rs)) (h2 : step s1 (.ret e) = some (s, r))
+    (hw : s.writeFailed = false) (hc : s.connBroken = false) :
+    ∃ md, s.wire.getLast? = some (.trailer (trailerCode e) md) := by
+  obtain ⟨fs, _, hwire⟩ := reply_complete cs req acts s1 rs e s r h1 h2 hw hc
+  exact ⟨trailersSet acts, by rw [hwire]; simp [List.getLast?_cons]⟩
+
+/-- **…and it says OK only if the handler returned nil**: a non-nil error never travels as code 0 -/
+theorem C02_http_server_ok_only_if_nil (e : Option HErr) : trailerCode e = 0 → e = none := by
+  intro h
+  cases e with
+  | none => rfl
+  | some x =>
+    cases x with
+    | status c => simp only [trailerCode] at h; split at h <;> simp_all
+    | plain => simp [trailerCode] at h
+    | ctx r => cases r <;> simp [trailerCode, codeOf] at h
+
+/-- a failed write (unencodable message, broken connection) means no trailer at all: the client sees a
+    truncated stream, never a success -/
+theorem C02_http_server_no_trailer_after_failed_write (s1 : St) (e : Option HErr) (s : St) (r : Res)
+    (h2 : step s1 (.ret e) = some (s, r)) (hw : s1.writeFailed = true) : s.wire = s1.wire := by
+  unfold step at h2
+  split at h2
+  · simp [stepFinished] at h2
+  · simp [stepLive, hw] at h2; obtain ⟨rfl, rfl⟩ := h2; rfl
+
+end HttpServerStream
